@@ -100,6 +100,22 @@ for _a in KINDS5:
                 return f"{a}.innerprod", X.innerprod, (Y,), {}, X, {"how": how}
         _mkA(_a, _b)
 
+for _a in KINDS5:
+    for _b in KINDS4:
+        for _pos in ("first", "last"):
+            def _mkA2(a, b, pos):
+                @row(f"innerprod:{a}x{b}:only-the-{pos}-mode-differs", (2, 3))
+                def _r(e, a=a, b=b, pos=pos):
+                    # the operands agree in every mode but one (longer by one or two, or shorter)
+                    X = e.holder(a)
+                    shp = list(e.shape)
+                    m = 0 if pos == "first" else e.N - 1
+                    shp[m] = shp[m] + int(e.rng.integers(1, 3)) if (shp[m] == 1 or e.rng.random() < 0.6) else shp[m] - 1
+                    Y = with_shape(e, shp).holder(b)
+                    return f"{a}.innerprod", X.innerprod, (Y,), {}, X, {}
+            _mkA2(_a, _b, _pos)
+
+
 @row("innerprod:empty-sptensor-receiver:shape-mismatch")
 def _(e):
     X = ttb.sptensor(shape=e.shape)
